@@ -689,6 +689,10 @@ def fn(name, *args):
     if name in ('sin', 'cos') and len(args) == 1:
         s_, c_ = sincos(args[0])
         return s_ if name == 'sin' else c_
+    if name == 'tan' and len(args) == 1:
+        s_, c_ = sincos(args[0])
+        if not c_.zero():
+            return s_ * inv(c_)
     k = ('fn', name, tuple(a.key() for a in args))
     if k not in CTX.bykey:
         CTX.bykey[k] = CTX.atom('%s(%s)' % (name, ', '.join(show(a, 6) for a in args)), ('fn', name, args))
@@ -706,16 +710,18 @@ def iszero(x):
     for m in x.t:
         for v, e in m:
             k = K[v][0]
-            if k == 'sqrt' and e < 0:
-                mins[v] = min(mins.get(v, 0), e)
-            elif k == 'inv' and e > 0:
+            if k == 'inv' and e > 0:
                 maxs[v] = max(maxs.get(v, 0), e)
+            elif k != 'inv' and e < 0:
+                # a negative power of any atom (x / c with c a plain symbol): multiplied away as well
+                mins[v] = min(mins.get(v, 0), e)
     if not mins and not maxs:
         return False
     mul = ONE
     for v, e in mins.items():
         k = -e
-        k += k % 2
+        if K[v][0] == 'sqrt':
+            k += k % 2
         mul = mul.rawmul(El({((v, k),): Fr(1)}))
     for v, e in maxs.items():
         mul = mul.rawmul(El({((v, -e),): Fr(1)}))
@@ -731,7 +737,19 @@ def _trig_refine(x):
     the coarser multiples over the finest unit (double/triple-angle formulas).  Returns the rewritten element or None."""
     K = CTX.kind
     groups = {}
-    for v in x.atoms():
+    seen = set()
+    todo = list(x.atoms())
+    allv = []
+    while todo:
+        v = todo.pop()
+        if v in seen:
+            continue
+        seen.add(v)
+        allv.append(v)
+        kd = K[v]
+        if kd[0] in ('sqrt', 'inv'):
+            todo.extend(kd[1].atoms())
+    for v in allv:
         kd = K[v]
         if kd[0] == 'fn' and kd[1] in ('sin', 'cos') and len(kd[2]) == 1 and len(kd[2][0].t) == 1:
             (m, c), = kd[2][0].t.items()
@@ -756,7 +774,7 @@ def _trig_refine(x):
                 mapping[atoms['cos']] = c_.norm()
     if not mapping:
         return None
-    return substitute(x, mapping)
+    return deep_substitute(x, mapping)
 
 
 def eq(a, b):
